@@ -8,12 +8,9 @@
    geom_svg / geom_tikz read the drawn geometry out of them.
 
    Planned in DESIGN.md 5 and NOT proved here at full strength:
-     C07_affine : "scale is increasing, affine, maps the reported domain onto
-       [0, inner length]" needs the scale model (LinearScale / TimeScale with
-       to_ms of the full instant), which belongs to the scale/time packages.
-       C07_affine_partial below proves the clauses over an ABSTRACT scale that
-       is assumed affine through (d0, 0) and (d1, L); composing it with the
-       scale model is the missing step.
+     C07_affine (now proved, below): composed with the scale models through the
+       axis pipeline of Render/Axis.v (LinearScale: Scale/Linear.v; TimeScale:
+       Time/TimeScale.v on epoch milliseconds of the full instant).
      C07_ticktext : tickFormat is likewise the scale packages'; C07_ticks shows
        that each tick is drawn at its position with the text it was given.
      nval reads an F8/F16/F6/Fs number as its value before decimal rounding;
@@ -21,7 +18,8 @@
        half a unit of the last digit (C09_printed_value); the shortest-digits
        spelling of str() is not modelled (only that it denotes the value). *)
 From Coq Require Import ZArith NArith QArith List Bool.
-From Labella Require Import Render.Geometry Render.GeometryProofs Render.Scene Render.SceneProofs.
+From Labella Require Import Render.Geometry Render.GeometryProofs Render.Scene Render.SceneProofs
+  Render.Axis Render.AxisProofs.
 Import ListNotations.
 Open Scope Q_scope.
 
@@ -172,25 +170,41 @@ Theorem C07_ticks : forall s j pos text, o_ticks (sc_opts s) = true ->
 Proof. exact ticks_drawn. Qed.
 Print Assumptions C07_ticks.
 
-(* over an abstract scale assumed affine and increasing through (d0, 0) and
-   (d1, L): dot i sits at scale(time_i) on the axis line and inside [0, L]
-   whenever the time is inside the domain *)
-Theorem C07_affine_partial : forall (scale : Q -> Q) (a b d0 d1 L : Q) s times,
-  0 < a -> (forall t, scale t == a * t + b) -> scale d0 == 0 -> scale d1 == L ->
-  Forall2 (fun l t => l_ideal l == scale t) (sc_labels s) times ->
-  forall i l t, nth_error (sc_labels s) i = Some l -> nth_error times i = Some t ->
-  let d := o_dir (sc_opts s) in
-  exists c, nth_error (pc_dots (geom_svg (svg_doc_of s))) i = Some c /\
-    nval (np_along d (pd_at c)) == scale t /\ nval (np_cross d (pd_at c)) == 0 /\
-    (d0 <= t -> t <= d1 -> 0 <= nval (np_along d (pd_at c)) /\ nval (np_along d (pd_at c)) <= L).
-Proof. exact dots_affine. Qed.
-Print Assumptions C07_affine_partial.
+(* C07_affine.  `axis i = AOk o` is the axis pipeline of timeline.py on input i
+   (Render/Axis.v): o reports the domain (ax_d0, ax_d1), the inner length ax_len
+   (= innerWidth or innerHeight by direction), the dot positions ax_dots (timePos of
+   every datum, in datum order) and the ticks.  `coord` is the scale's coordinate:
+   the number (LinearScale) or the epoch milliseconds of the FULL instant, time of
+   day included (TimeScale).  For a non-degenerate increasing domain and a positive
+   inner length: dots and ticks sit at ONE function ax_pos o of the coordinate, which
+   is affine with positive slope (hence increasing) and maps the reported domain onto
+   [0, inner length]; in the drawn SVG scene whose labels carry these ideal positions,
+   dot k is on the axis line at ax_pos o (time of datum k), and inside [0, inner
+   length] whenever the time is inside the domain. *)
+Theorem C07_affine : forall i o s,
+  axis i = AOk o -> coord (ax_d0 o) < coord (ax_d1 o) -> 0 < ax_len o ->
+  Forall2 (fun l p => l_ideal l == p) (sc_labels s) (ax_dots o) ->
+  (exists a b, 0 < a /\ (forall x, ax_pos o x == a * x + b) /\
+               ax_pos o (coord (ax_d0 o)) == 0 /\ ax_pos o (coord (ax_d1 o)) == ax_len o) /\
+  ax_len o = axis_len (ai_opts i) /\
+  (forall x y, x < y -> ax_pos o x < ax_pos o y) /\
+  ax_ticks o = map (fun p => ax_pos o (coord p)) (ax_tick_at o) /\
+  forall k l v, nth_error (sc_labels s) k = Some l -> nth_error (ai_data i) k = Some v ->
+    let t := coord (parse (ai_today i) v) in
+    let d := o_dir (sc_opts s) in
+    exists c, nth_error (pc_dots (geom_svg (svg_doc_of s))) k = Some c /\
+      nval (np_along d (pd_at c)) == ax_pos o t /\ nval (np_cross d (pd_at c)) == 0 /\
+      (coord (ax_d0 o) <= t -> t <= coord (ax_d1 o) ->
+       0 <= nval (np_along d (pd_at c)) /\ nval (np_along d (pd_at c)) <= ax_len o).
+Proof. exact axis_dots_affine. Qed.
+Print Assumptions C07_affine.
 
-Theorem C07_affine_increasing_partial : forall (scale : Q -> Q) (a b : Q),
-  0 < a -> (forall t, scale t == a * t + b) ->
-  forall t1 t2, t1 < t2 -> scale t1 < scale t2.
-Proof. exact affine_increasing. Qed.
-Print Assumptions C07_affine_increasing_partial.
+(* every datum has its dot position in the pipeline's output, in datum order (so the
+   Forall2 hypothesis above is about as many labels as data) *)
+Theorem C07_affine_dots : forall i o, axis i = AOk o ->
+  Forall2 (fun v p => p = ax_pos o (coord (parse (ai_today i) v))) (ai_data i) (ax_dots o).
+Proof. intros i o H. exact (proj1 (axis_counts i o H)). Qed.
+Print Assumptions C07_affine_dots.
 
 (* non-vacuity: direction up, layer gap 60, two labels of height 18; the second
    sits in layer 2 behind two stubs.  Its path has the specified five steps
